@@ -24,7 +24,8 @@ from bounded import ref_oal as R
 STANDS = ['bridgepoint.interpret.run_function', 'bridgepoint.interpret.ActionWalker.accept_WhileNode',
           'bridgepoint.interpret.ActionWalker.accept_ForEachNode', 'bridgepoint.interpret.ActionWalker.accept_BodyNode',
           'bridgepoint.interpret.ActionWalker.accept_BlockNode', 'bridgepoint.interpret.SymbolTable']
-NOTE = ('select any/one = first instance in creation / relate order and for-each order are taken from C09/C02; '
+NOTE = ('non-trivial cases = programs the reference evaluator accepts on the population (they are run on the real interpreter); '
+        'select any/one = first instance in creation / relate order and for-each order are taken from C09/C02; '
         'programs the reference rejects (empty or deleted handle used, multiplicity exceeded, delete of a linked '
         'instance, > 600 steps) are outside the property and skipped; relationship phrases are only written for the reflexive R3 '
         '(a phrase on a non-reflexive association is not clearly demanded by the property; observed: pyxtuml rejects it)')
